@@ -21,42 +21,11 @@ def run(ctx):
             raise vlib.ToolError("%s was not refuted" % name)
     # implementation-level exploration: real threads under the deterministic scheduler, DFS with a
     # preemption bound over the synchronisation points of the statistics, then random priorities
-    out = ctx.path("c14.ndjson")
-    txt = vlib.vh(ctx, ["c14", "--tier", ctx.tier, "--seed", ctx.seed, "--out", out], timeout=3000 if q else 20000)
-    summ = json.loads([l for l in txt.splitlines() if l.startswith("{")][-1])["summary"]
-    ctx.notes["schedule_exploration"] = summ
-    ctx.behaviours += sum(s["executions"] for s in summ)
-    for s in summ:
-        for v in s["verdicts"]:
-            if v["kind"] == "stuck":
-                raise vlib.ToolError("scheduler: %s" % v["msg"])
-            vlib.report_violation(ctx, "deadlock in scenario %s: %s" % (s["scenario"], v["waiting"]),
-                                  [json.dumps({"scenario": s["scenario"], "sched": v["sched"]})])
-    rej = vlib.validate_traces(ctx, TRACE[0], TRACE[1], out, "c14", is_reset=IS_BEGIN, max_rejects=20)
-    for s in vlib.first_lines(out, 6):
-        vlib.add_sample(ctx, "event_of_scheduled_execution", s)
-    for r in rej:
-        k = vlib.match_known(ctx, r)
-        if k:
-            if k not in ctx.known:
-                ctx.known.append(k)
-            continue
-        bad = r["history"][r["at"] - 1] if 0 < r["at"] <= len(r["history"]) else ""
-        vlib.report_violation(ctx, "%s at event %s: %s" % (r["why"], r["at"], bad[:300]), r["history"])
+    vlib.scheduled_run(ctx, "c14", TRACE, timeout=3000 if q else 20000)
 
 
 def replay(ctx, path):
-    vlib.build_harness(ctx)
-    first = json.loads(open(path).readline())
-    scn = first.get("scn") or first.get("scenario")
-    plan = ",".join(str(x) for x in first["sched"])
-    out = ctx.path("re.ndjson")
-    vlib.vh(ctx, ["c14", "--scenario", scn, "--plan", plan, "--out", out])
-    rej = vlib.validate_traces(ctx, TRACE[0], TRACE[1], out, "re", is_reset=IS_BEGIN)
-    for r in rej:
-        vlib.report_violation(ctx, r["why"], r["history"], name="again-" + __import__("os").path.basename(path))
-    if not rej:
-        ctx.log("the replayed schedule is accepted by the specification on this tree")
+    vlib.scheduled_replay(ctx, "c14", TRACE, path)
 
 
 def evidence(ctx):
